@@ -25,7 +25,8 @@ CLAUSE_PROP = {
     "C14_FinalizeLast": "C14", "C14_Outcome": "C14", "C14_Prompt": "C14", "C14_LogFactoryRestored": "C14",
     "C14_HandlerFaultIsolated": "C14",
 }
-EXITS = ["exhausted", "stop_handler", "handler_error_stop", "handler_error_continue", "external_cancel", "external_stop"]
+EXITS = ["exhausted", "stop_handler", "handler_error_stop", "handler_error_continue", "external_cancel", "external_stop",
+         "stop_during_init"]
 
 
 def life_scenarios(full: bool) -> List[dict]:
